@@ -537,7 +537,7 @@ def reset_psutil(psutil, root):
     psutil._psposix.get_terminal_map.cache_clear()
 
 
-def run_case(work, kind, mname, vanish=None, deny=None, sticky=False, ovanish=None, half=False):
+def run_case(work, kind, mname, vanish=None, deny=None, sticky=False, ovanish=None, half=False, then=None):
     """Build the world, create the Process object (no faults), then run the method under the fault
     schedule.  Returns {"out": outcome, "log": labels, "gone": bool, "after": {method: outcome}}."""
     import psutil
@@ -557,8 +557,14 @@ def run_case(work, kind, mname, vanish=None, deny=None, sticky=False, ovanish=No
         w.deny = {int(k): v for k, v in (deny or {}).items()}
         w.ovanish = {int(k): int(v) for k, v in (ovanish or {}).items()}
         out = call_method(p, mname)
+        outs = [out]
+        for m2 in then or []:
+            # history on the SAME object: the later calls run without any new fault
+            w.deny = {}
+            psutil._psposix.get_terminal_map.cache_clear()      # module-level memo, not a field of the object
+            outs.append(call_method(p, m2))
         log = w.labels()
-        res = {"out": out, "log": log, "gone": w.gone}
+        res = {"out": out, "outs": outs, "log": log, "gone": w.gone}
         if sticky and w.gone:
             after = {}
             for m in STICKY:
